@@ -33,7 +33,11 @@ ASSUMPTIONS = [
 
 HEADER = C04.HEADER + """
 Definition tabs := list (token * list row).
-Record pstep := mkPStep { p_only_snvs : bool; p_end_decl : bool; p_plan : list (token * list target); p_in : list vrec;
+(* p_plan: what the writer was actually given (trace; used for L2); p_sel: the same with EVERY selected sample as a
+   target -- a selected sample for which the run produced no super-reads at all has no phase (used for the
+   specification checks: its old phase statements must go as well) *)
+Record pstep := mkPStep { p_only_snvs : bool; p_end_decl : bool; p_plan : list (token * list target);
+  p_sel : list (token * list target); p_in : list vrec;
   p_outPS : list vrec; p_outHP : list vrec; p_readPS : res tabs; p_readHP : res tabs }.
 Definition cfP (k : pstep) := mkCfg TagPS (p_only_snvs k) false (p_end_decl k).
 Definition cfH (k : pstep) := mkCfg TagHP (p_only_snvs k) false (p_end_decl k).
@@ -48,15 +52,15 @@ Definition l2_reader_PS k := tables_eqb (read_file the_guard false false (p_outP
 Definition l2_reader_HP k := tables_eqb (read_file the_guard false false (p_outHP k)) (p_readHP k).
 Definition readable_PS k := okb (p_readPS k) (fun _ => true).
 Definition readable_HP k := okb (p_readHP k) (fun _ => true).
-Definition decode_PS_ok k := okb (eff (p_outPS k) (p_readPS k)) (file_decodes (cfP k) (p_plan k)).
-Definition decode_HP_ok k := okb (eff (p_outHP k) (p_readHP k)) (file_decodes (cfH k) (p_plan k)).
+Definition decode_PS_ok k := okb (eff (p_outPS k) (p_readPS k)) (file_decodes (cfP k) (p_sel k)).
+Definition decode_HP_ok k := okb (eff (p_outHP k) (p_readHP k)) (file_decodes (cfH k) (p_sel k)).
 Definition okt {A} (r : res A) (f : A -> bool) : bool := match r with Ok a => f a | Err _ => true end.
-Definition quality_PS k := okt (eff (p_outPS k) (p_readPS k)) (file_quality_fresh (p_plan k)).
-Definition quality_HP k := okt (eff (p_outHP k) (p_readHP k)) (file_quality_fresh (p_plan k)).
-Definition nostale_PS k := file_no_stale fix_guard (cfP k) (p_plan k) (p_in k) (p_outPS k).
-Definition nostale_HP k := file_no_stale fix_guard (cfH k) (p_plan k) (p_in k) (p_outHP k).
+Definition quality_PS k := okt (eff (p_outPS k) (p_readPS k)) (file_quality_fresh (p_sel k)).
+Definition quality_HP k := okt (eff (p_outHP k) (p_readHP k)) (file_quality_fresh (p_sel k)).
+Definition nostale_PS k := file_no_stale fix_guard (cfP k) (p_sel k) (p_in k) (p_outPS k).
+Definition nostale_HP k := file_no_stale fix_guard (cfH k) (p_sel k) (p_in k) (p_outHP k).
 Definition equiv k := match eff (p_outPS k) (p_readPS k), eff (p_outHP k) (p_readHP k) with
-  | Ok a, Ok b => tables_equiv (p_plan k) a b | _, _ => false end.
+  | Ok a, Ok b => tables_equiv (p_sel k) a b | _, _ => false end.
 (* the repaired writer + repaired decoder satisfy everything on the same inputs (evaluated, not the theorem) *)
 Definition fixed_ok k :=
   match phase_writer (cfP k) fix_rules (p_plan k) (p_in k), phase_writer (cfH k) fix_rules (p_plan k) (p_in k) with
@@ -93,8 +97,26 @@ Definition l2_reads k := match r_base k, r_orig k with
        forallb (fun rd => existsb (fun m => list_eqb (pair_eqb Z.eqb Nat.eqb) rd m) model) rds
        && (length model =? length rds)%nat) (r_reads k)
   | _, _ => false end.
+
+(* completeness of the read-back: wherever the run wrote a phase for a target at a record the reader keeps (bi-allelic,
+   an SNV under only_snvs), the table of that chromosome has a row at that position carrying exactly that phase *)
+Definition rec_readable (osnv : bool) (r : vrec) : bool :=
+  match alt_lens r with [a] => negb osnv || ((ref_len r =? 1) && (a =? 1)) | _ => false end.
+Definition complete_run (cf : cfg) (ts : list target) (c : token) (out : list vrec) (t : tabs) : bool :=
+  forallb (fun r =>
+    if (chrom r =? c) && rec_readable false r && rec_readable (only_snvs cf) r then
+      forallb (fun tg => match written cf ts (t_sample tg) (pos r) with
+        | None => true
+        | Some e => existsb (fun rw => (row_pos rw =? pos r)
+                                      && phase_matches (nth (t_sample tg) (row_phases rw) None) (Some e)) (find_tab t c)
+        end) ts
+    else true) out.
+Definition file_complete (cf : cfg) (plan : list (token * list target)) (out : list vrec) (t : tabs) : bool :=
+  forallb (fun e => complete_run cf (snd e) (fst e) out t) plan.
+Definition complete_PS k := okb (eff (p_outPS k) (p_readPS k)) (file_complete (cfP k) (p_sel k) (p_outPS k)).
+Definition complete_HP k := okb (eff (p_outHP k) (p_readHP k)) (file_complete (cfH k) (p_sel k) (p_outHP k)).
 """
-P_CHECKS = {k: k for k in ["l2_writer_PS", "l2_writer_HP", "l2_reader_PS", "l2_reader_HP", "readable_PS", "readable_HP",
+P_CHECKS = {k: k for k in ["complete_PS", "complete_HP", "l2_writer_PS", "l2_writer_HP", "l2_reader_PS", "l2_reader_HP", "readable_PS", "readable_HP",
                            "decode_PS_ok", "decode_HP_ok", "quality_PS", "quality_HP", "nostale_PS", "nostale_HP", "equiv",
                            "fixed_ok"]}
 U_CHECKS = {k: k for k in ["l2_unphase", "l2_reader_u", "unphased_all"]}
@@ -158,20 +180,32 @@ def tabs_term(rb, it):
 
 # ------------------------------------------------------------------------------------- generator
 def gen_history(rng):
-    nsamples = rng.choice([1, 2, 3, 3])
+    ped = rng.random() < 0.15
+    nsamples = 3 if ped else rng.choice([1, 2, 3, 3])
     nchrom = rng.choice([1, 1, 2])
     sc = synth.make_scenario(rng, nchrom=nchrom, nsamples=nsamples, nvars=rng.randint(4, 9),
-                             kinds=("snv", "snv", "snv", "ins", "del"), het_fraction=0.85, min_gap=20)
+                             kinds=("snv", "snv", "snv", "ins", "del"), het_fraction=0.85, min_gap=20,
+                             sample_names=vcfgen.draw_names(rng, vcfgen.SAMPLE_NAMES, nsamples),
+                             chrom_names=vcfgen.draw_names(rng, vcfgen.CHROM_NAMES, nchrom))
+    trio = None
+    if ped:
+        roles = list(sc.samples)
+        rng.shuffle(roles)
+        ch, fa, mo = roles
+        for c in sc.chroms:
+            sc.haps[ch][c], _ = synth.inherit(rng, sc.haps[fa][c], sc.haps[mo][c], recomb_prob=0.0)
+        trio = [ch, fa, mo]
     reads = []
     for s in sc.samples:
         for c in sc.chroms:
             reads += synth.simulate_reads(rng, sc, s, c, n_reads=rng.randint(5, 14), len_range=(50, 160),
                                           paired_fraction=0.5, insert_range=(40, 200))
-    pre = rng.choice([None, None, "PS", "HP", "HPQ"])
+    # PSSLASH: PS values also next to unphased genotypes; PIPE: `|` genotypes without any PS key
+    pre = rng.choice([None, None, None, "PS", "PSSLASH", "PIPE", "HP", "HPQ"])
     hl = ["##fileformat=VCFv4.2", "##source=synth"] + [f"##contig=<ID={c},length={len(sc.ref[c])}>" for c in sc.chroms]
     hl += [vcfgen.FORMAT_DEFS["GT"], vcfgen.FORMAT_DEFS["GQ"], vcfgen.FORMAT_DEFS["XF"]]
     hl_pre = list(hl)
-    if pre == "PS":
+    if pre in ("PS", "PSSLASH"):
         hl_pre.append(vcfgen.FORMAT_DEFS["PS"])
     if pre in ("HP", "HPQ"):
         hl_pre.append(vcfgen.FORMAT_DEFS["HP"])
@@ -179,13 +213,29 @@ def gen_history(rng):
         hl_pre.append(vcfgen.FORMAT_DEFS["PQ"])
     base = vcfabs.VcfText(sc.samples, hl)             # unphased variant file
     start = vcfabs.VcfText(sc.samples, hl_pre)        # the history's first input (possibly pre-phased)
+    shapes = []
     for c in sc.chroms:
         b0 = sc.variants[c][0].pos + 1
         multi_at = rng.randrange(len(sc.variants[c])) if rng.random() < 0.3 else None
+
+        def skipped_record(pos1, refb, kind):
+            """a record the phaser / reader must skip, same text in both files (phased multi-ALT in a PS start file)"""
+            other = [x for x in "ACGT" if x != refb[0]]
+            if kind == "multi":
+                alts = other[0] + "," + other[1]
+                base.add(c, pos1, refb, alts, "GT", [rng.choice(["1/2", "0/1"]) for _ in sc.samples])
+                if pre in ("PS", "PSSLASH"):
+                    start.add(c, pos1, refb, alts, "GT:PS", [rng.choice(["1|2", "2|1"]) + f":{b0}" for _ in sc.samples])
+                else:
+                    start.rows.append(list(base.rows[-1]))
+            else:
+                base.add(c, pos1, refb[0], ".", "GT", ["0/0" for _ in sc.samples])
+                start.rows.append(list(base.rows[-1]))
+
         for i, v in enumerate(sc.variants[c]):
             keys = [k for k in ("GQ", "XF") if rng.random() < 0.4]
             bcalls, scalls = [], []
-            prekeys = {"PS": ["PS"], "HP": ["HP"], "HPQ": ["HP", "PQ"]}.get(pre, []) if rng.random() < 0.8 else []
+            prekeys = {"PS": ["PS"], "PSSLASH": ["PS"], "HP": ["HP"], "HPQ": ["HP", "PQ"]}.get(pre, []) if rng.random() < 0.8 else []
             for s in sc.samples:
                 a, b = sc.haps[s][c][i]
                 r = rng.random()
@@ -203,30 +253,41 @@ def gen_history(rng):
                 bcalls.append(":".join([gt] + extra))
                 sgt, pv = gt, []
                 het = a != b and gt != "./."
+                if pre == "PIPE" and het and rng.random() < 0.8:
+                    sgt = rng.choice([f"{a}|{b}", f"{b}|{a}"])
                 for k in prekeys:
                     if k == "PS":
-                        if het and rng.random() < 0.8:
+                        if het and rng.random() < (0.8 if pre == "PS" else 0.4):
                             sgt = rng.choice([f"{a}|{b}", f"{b}|{a}"])
                             pv.append(str(b0))
+                        elif pre == "PSSLASH" and rng.random() < 0.7:
+                            pv.append(str(b0))                # a PS value next to a `/` genotype
                         else:
                             pv.append(".")
                     elif k == "HP":
-                        pv.append(rng.choice([f"{b0}-1,{b0}-2", f"{b0}-2,{b0}-1"]) if het and rng.random() < 0.8 else ".")
+                        pv.append(rng.choice([f"{b0}-1,{b0}-2", f"{b0}-2,{b0}-1"]) if (het or rng.random() < 0.15) and rng.random() < 0.8 else ".")
                     elif k == "PQ":
-                        pv.append(rng.choice(["42", "20"]) if pv and pv[-1] != "." else ".")
+                        pv.append(rng.choice(["42", "20", "3.5"]) if pv and pv[-1] != "." else ".")
                 scalls.append(":".join([sgt] + extra + pv))
             fmt = ":".join(["GT"] + keys)
+            # duplicate positions around the real variant: a skipped record directly before it, a skipped or a
+            # second bi-allelic record directly behind it
+            dup = rng.choice([None] * 8 + ["multi_before", "noalt_before", "multi_after", "biallelic_after", "multi_before+biallelic_after"])
+            if dup and "before" in dup:
+                skipped_record(v.pos + 1, v.ref, "multi" if "multi" in dup else "noalt")
             base.add(c, v.pos + 1, v.ref, v.alt, fmt, bcalls)
             start.add(c, v.pos + 1, v.ref, v.alt, ":".join(["GT"] + keys + prekeys), scalls)
+            if dup and "multi_after" in dup:
+                skipped_record(v.pos + 1, v.ref, "multi")
+            if dup and "biallelic_after" in dup:
+                alt2 = v.ref + "TT" if not v.alt.startswith(v.ref + "TT") else v.ref + "GG"
+                base.add(c, v.pos + 1, v.ref, alt2, "GT", [rng.choice(["0/1", "1/0", "1/1"]) for _ in sc.samples])
+                start.rows.append(list(base.rows[-1]))
+            if dup:
+                shapes.append("dup." + dup)
             if multi_at == i:
                 p0 = v.pos + 1 + len(v.ref) + 3
-                refb = sc.ref[c][p0 - 1]
-                alts = ",".join([x for x in "ACGT" if x != refb][:2])
-                base.add(c, p0, refb, alts, "GT", [rng.choice(["1/2", "0/1"]) for _ in sc.samples])
-                if pre == "PS":
-                    start.add(c, p0, refb, alts, "GT:PS", [rng.choice(["1|2", "2|1"]) + f":{b0}" for _ in sc.samples])
-                else:
-                    start.add(c, p0, refb, alts, "GT", [rng.choice(["1/2", "0/1"]) for _ in sc.samples])
+                skipped_record(p0, sc.ref[c][p0 - 1], "multi")
     # VcfReader rejects any file that mixes the two encodings, also between samples; since each phase step is
     # run with both tags, a --sample selection is only drawn while the other samples carry no phase at all
     carries = {s: pre is not None for s in sc.samples}
@@ -236,18 +297,22 @@ def gen_history(rng):
         st = {"kind": kind}
         if kind != "unphase":
             st["samples"] = None
-            if nsamples > 1 and rng.random() < 0.7:
-                sel = sorted(rng.sample(sc.samples, rng.randint(1, nsamples - 1)))
+            if nsamples > 1 and not ped and rng.random() < 0.7:
+                sel = rng.sample(sc.samples, rng.randint(1, nsamples - 1))
                 if not any(carries[s] for s in sc.samples if s not in sel):
                     st["samples"] = sel
             st["distrust"] = rng.random() < 0.2
+            st["only_snvs"] = rng.random() < 0.15
+            st["ped"] = trio if ped and rng.random() < 0.8 else None
+            st["algorithm"] = "heuristic" if not st["ped"] and rng.random() < 0.1 else "whatshap"
             st["reinput"] = rng.random() < 0.5
+            st["reinput_max_coverage"] = rng.choice([None, None, 6, 4, 2])
             for s in (st["samples"] or sc.samples):
                 carries[s] = True
         else:
             carries = {s: False for s in sc.samples}
         steps.append(st)
-    return sc, reads, base, start, steps, pre
+    return sc, reads, base, start, steps, pre, shapes
 
 
 # ------------------------------------------------------------------------------------- running
@@ -255,6 +320,12 @@ def phase_cmd(tag, st, out):
     args = ["phase", "--reference", "ref.fa", "-o", out, "--tag", tag]
     if st.get("distrust"):
         args.append("--distrust-genotypes")
+    if st.get("only_snvs"):
+        args.append("--only-snvs")
+    if st.get("algorithm", "whatshap") != "whatshap":
+        args += ["--algorithm", st["algorithm"]]
+    if st.get("ped"):
+        args += ["--ped", "fam.ped"]
     for s in st.get("samples") or []:
         args += ["--sample", s]
     return args
@@ -268,6 +339,9 @@ def run_history(ctx, wd, idx, sc, reads, base, start, steps):
     synth.write_bam(sc, reads, os.path.join(d, "reads.bam"))
     base.write(os.path.join(d, "base.vcf"))
     start.write(os.path.join(d, "s0.vcf"))
+    for st in steps:
+        if st.get("ped"):
+            synth.write_ped(os.path.join(d, "fam.ped"), [tuple(st["ped"])])
     cur = "s0.vcf"
     out = []
     for si, st in enumerate(steps):
@@ -301,12 +375,30 @@ def run_history(ctx, wd, idx, sc, reads, base, start, steps):
         rec["outs"] = outs
         nxt = outs[st["kind"]][0]
         if st.get("reinput"):
-            rc, so, se = util.run_cli(ctx, ["phase", "-o", f"re{si + 1}.vcf", "base.vcf", nxt], cwd=d,
+            extra = ["--max-coverage", str(st["reinput_max_coverage"])] if st.get("reinput_max_coverage") else []
+            rc, so, se = util.run_cli(ctx, ["phase", "-o", f"re{si + 1}.vcf"] + extra + ["base.vcf", nxt], cwd=d,
                                       env_extra={"WHATSHAP_VERIF_TRACE": os.path.join(d, f"retrace{si + 1}.jsonl")})
             rec["re"] = (f"re{si + 1}.vcf", rc, se[-2500:])
         out.append(rec)
         cur = nxt
     return out
+
+
+def max_set_coverage(tables):
+    """largest number of pseudo reads (two per phase set with >= 2 members) spanning one variant of one sample"""
+    worst = 0
+    for chrom, rows in tables:
+        ns = len(rows[0][2]) if rows else 0
+        for k in range(ns):
+            spans = {}
+            for pos, gts, phs in rows:
+                p = phs[k]
+                if p is not None:
+                    lo, hi, n = spans.get(p[0], (pos, pos, 0))
+                    spans[p[0]] = (min(lo, pos), max(hi, pos), n + 1)
+            for pos, _, _ in rows:
+                worst = max(worst, 2 * sum(1 for lo, hi, n in spans.values() if n >= 2 and lo <= pos <= hi))
+    return worst
 
 
 def stale_source(fin, plan, tag):
@@ -341,7 +433,7 @@ def nonascending_source(fin, fout, plan):
 
 def build_cases(ctx, results, inputs):
     P, U, R = [], [], []
-    for hist, (sc, reads, base, start, steps, pre) in zip(results, inputs):
+    for hist, (sc, reads, base, start, steps, pre, shapes) in zip(results, inputs):
         for rec in hist:
             d = rec["dir"]
             st = rec["st"]
@@ -349,6 +441,11 @@ def build_cases(ctx, results, inputs):
                       "steps": steps[:rec["step"] + 1]}
             desc = f"history {rec['hist']} step {rec['step']} {st} (start pre-phased: {pre})"
             ctx.tally("steps." + st["kind"])
+            for k in ("distrust", "only_snvs", "ped", "samples"):
+                if st.get(k):
+                    ctx.tally("steps.with_" + k)
+            if st.get("algorithm", "whatshap") != "whatshap":
+                ctx.tally("steps.algorithm." + st["algorithm"])
             if "fail" in rec:
                 ctx.tally("steps.tool_failed")
                 with open(os.path.join(d, rec["in"]), "rb") as f:
@@ -357,7 +454,7 @@ def build_cases(ctx, results, inputs):
                     # the file written by the previous step (already reported there) cannot be read by htslib
                     ctx.tally("steps.tool_failed_on_nul_input")
                 else:
-                    ctx.l2_disagreement("whatshap failed inside a history", [desc + " :: " + rec["fail"]])
+                    ctx.violation("c09:tool-failed", "whatshap failed on a well-formed input inside a history: " + desc + " :: " + rec["fail"], replay)
                 continue
             fin = vcfabs.parse_vcf(os.path.join(d, rec["in"]))
             it = vcfabs.Interner()
@@ -371,9 +468,16 @@ def build_cases(ctx, results, inputs):
                 continue
             opts = {"chromosomes": None}
             plans, fouts, rbs = {}, {}, {}
+            unreadable = False
             for tag in ("PS", "HP"):
                 o, tr = rec["outs"][tag]
-                fouts[tag] = vcfabs.parse_vcf(os.path.join(d, o))
+                try:
+                    fouts[tag] = vcfabs.parse_vcf(os.path.join(d, o))
+                except Exception as e:
+                    ctx.violation("writer:output-unreadable", f"the output of phase --tag {tag} cannot be parsed "
+                                  f"({type(e).__name__}: {e}) :: " + desc, replay)
+                    unreadable = True
+                    break
                 plans[tag] = C04.plan_from_trace(fin, tr, opts)
                 rb = read_back(os.path.join(d, o))
                 if fouts[tag].nul_bytes:
@@ -385,16 +489,25 @@ def build_cases(ctx, results, inputs):
                     ctx.violation("writer:hp-unset-writes-nul-byte",
                                   f"output of phase --tag {tag} contains {fouts[tag].nul_bytes} NUL byte(s); VcfReader: {rb_show[1:]} :: " + desc, replay)
                 rbs[tag] = rb
+            if unreadable:
+                continue
             if json.dumps(plans["PS"], sort_keys=True) != json.dumps(plans["HP"], sort_keys=True):
                 ctx.l2_disagreement("the two tags' runs did not compute the same phasing (trace differs)", [desc])
                 continue
             plan = plans["PS"]
-            term = ("(mkPStep false " + ("true" if vcfabs.end_declared(fin) else "false") + "\n " + C04.plan_term(plan, fin.samples, it)
+            selected = st.get("samples") or fin.samples
+            sel_plan = [(c, {sm: t.get(sm, ([], {})) for sm in fin.samples if sm in selected or sm in t}) for c, t in plan]
+            dropped = sorted({sm for (c, t), (_, t2) in zip(plan, sel_plan) for sm in t2 if sm not in t})
+            if dropped:
+                ctx.tally("steps.selected_sample_without_superreads")
+            term = ("(mkPStep " + ("true " if st.get("only_snvs") else "false ") + ("true" if vcfabs.end_declared(fin) else "false") + "\n " + C04.plan_term(plan, fin.samples, it)
+                    + "\n " + C04.plan_term(sel_plan, fin.samples, it)
                     + "\n " + vcfabs.recs_term(fin.records, it) + "\n " + vcfabs.recs_term(fouts["PS"].records, it) + "\n "
                     + vcfabs.recs_term(fouts["HP"].records, it) + "\n " + tabs_term(rbs["PS"], it) + "\n " + tabs_term(rbs["HP"], it) + ")")
             nphased = max([sum(1 for p, a in sr if p in comp and a[0] != a[1] and max(a) <= 1) for c, t in plan for s, (sr, comp) in t.items()] or [0])
             ctx.count(("p", open(os.path.join(d, rec["in"])).read(), json.dumps(st, sort_keys=True)), nontrivial=nphased >= 2)
-            P.append({"term": term, "desc": desc, "replay": replay, "fin": fin, "fouts": fouts, "plan": plan, "rbs": rbs, "st": st})
+            P.append({"term": term, "desc": desc, "replay": replay, "fin": fin, "fouts": fouts, "plan": sel_plan, "rbs": rbs, "st": st,
+                      "dropped": dropped})
             for tag in ("PS", "HP"):
                 if rbs[tag][0] == "err":
                     ctx.tally(f"readback.{tag}.{rbs[tag][1]}")
@@ -413,11 +526,19 @@ def build_cases(ctx, results, inputs):
                         ctx.violation("vcfreader:hp-none-crash",
                                       "`whatshap phase base.vcf phased.vcf` dies reading the phased VCF written by "
                                       f"phase --tag {tag} (HP value read back as (None,)): " + desc + " :: " + se[-160:], replay)
-                    elif "MixedPhasingError" in se:
-                        pass        # reported through the decode checks of the step (stale phase)
                     else:
-                        ctx.l2_disagreement("whatshap phase with a phased VCF as input failed", [desc + " :: " + se[-300:]])
+                        if dropped and "MixedPhasingError" in se:
+                            ctx.tally("reinput.failed_on_old_phase_of_dropped_sample")      # reported with the step itself
+                        else:
+                            ctx.violation("phaseinput:tool-failed", "`whatshap phase base.vcf phased.vcf` failed: " + desc + " :: " + se[-300:], replay)
                     continue
+                cap = st.get("reinput_max_coverage") or 15
+                if rbs[tag][0] == "ok" and max_set_coverage(rbs[tag][1]) > cap:
+                    ctx.tally("reinput.sets_over_coverage_cap")      # the property only speaks about sets that fit
+                    continue
+                ctx.tally("reinput.max_coverage.%d" % cap)
+                if rbs[tag][0] == "ok" and max_set_coverage(rbs[tag][1]) == cap:
+                    ctx.tally("reinput.sets_exactly_at_cap")
                 rb_base = read_back(os.path.join(d, "base.vcf"))
                 rb_re = read_back(os.path.join(d, re_path))
                 rreads = []
@@ -435,6 +556,9 @@ def build_cases(ctx, results, inputs):
 
 def classify_decode(ctx, c, tag, failing, i):
     """signature for a failing decode / no-stale / equivalence check of output `tag` of phase step c"""
+    if c.get("dropped") and (stale_source(c["fin"], c["plan"], "PS") or stale_source(c["fin"], c["plan"], "HP")):
+        # a selected sample was not handed to the writer at all (no super-reads), so its old phase was not removed
+        return "phase:selected-sample-without-superreads-keeps-old-phase"
     if stale_source(c["fin"], c["plan"], tag):
         return "writer:stale-phase-on-retag"
     if tag == "HP" and stale_source(c["fin"], c["plan"], "PS"):      # old HP values under a new --tag HP run
@@ -469,7 +593,7 @@ def evaluate(ctx, P, U, R):
                                f"VcfReader(phases=True) raises {rb[1]}: {rb[2]} on the output of phase --tag {tag} "
                                "(HP of a call that is not phased at a phased record is read back as (None,))", c)
                     elif rb[1] == "MixedPhasingError":
-                        report("writer:stale-phase-on-retag" if stale_source(c["fin"], c["plan"], tag) else "c09:mixed-phasing",
+                        report(classify_decode(ctx, c, tag, F, i) if stale_source(c["fin"], c["plan"], tag) else "c09:mixed-phasing",
                                f"the output of phase --tag {tag} mixes PS and HP phasing (MixedPhasingError on read-back): "
                                "phase information of the other encoding was left in place", c)
                     else:
@@ -478,15 +602,18 @@ def evaluate(ctx, P, U, R):
                     sig = classify_decode(ctx, c, tag, F, i)
                     report(sig, f"decoding the output of phase --tag {tag} does not return the phase that was written "
                                 "(trace) for a target sample", c)
+                if i in F["complete_" + tag] and i not in F["readable_" + tag]:
+                    report("c09:written-phase-not-read-back", f"a phase written by phase --tag {tag} for a target sample at a "
+                           "bi-allelic record is missing from (or different in) the VariantTable read back from the output", c)
                 if i in F["nostale_" + tag]:
-                    sig = "writer:stale-phase-on-retag" if stale_source(c["fin"], c["plan"], tag) else classify_decode(ctx, c, tag, F, i)
+                    sig = classify_decode(ctx, c, tag, F, i)
                     report(sig, f"a target call in the output of phase --tag {tag} carries a phase statement that this run did not write", c)
                 if i in F["quality_" + tag]:
-                    report("writer:stale-pq-on-rephase", f"a phase of a target sample decoded from the output of phase --tag {tag} "
+                    report("phase:selected-sample-without-superreads-keeps-old-phase" if c.get("dropped") else "writer:stale-pq-on-rephase", f"a phase of a target sample decoded from the output of phase --tag {tag} "
                                                          "carries a phasing quality (PQ) from the input file", c)
             if i in F["equiv"] and i not in F["decode_PS_ok"] and i not in F["decode_HP_ok"]:
                 report("c09:encodings-differ", "PS and HP outputs of the same run decode differently although each decodes to what was written", c)
-            if i in F["fixed_ok"]:
+            if i in F["fixed_ok"] and not c.get("dropped"):
                 ctx.l2_disagreement("the writer/decoder model does not satisfy the specification on this input", [c["desc"]])
         for lab in ("l2_writer_PS", "l2_writer_HP", "l2_reader_PS", "l2_reader_HP"):
             if failing[lab]:
@@ -524,10 +651,19 @@ def run_histories(ctx, n):
     inputs = [gen_history(rng) for _ in range(n)]
     with ThreadPoolExecutor(max_workers=14) as ex:
         results = list(ex.map(lambda t: run_history(ctx, wd, t[0], *t[1][:5]), enumerate(inputs)))
-    for (sc, reads, base, start, steps, pre) in inputs:
+    for (sc, reads, base, start, steps, pre, shapes) in inputs:
         ctx.tally("histories")
         ctx.tally("histories.prephased." + str(pre))
         ctx.tally("histories.samples.%d" % len(sc.samples))
+        ctx.tally("histories.length.%d" % len(steps))
+        for sh in shapes:
+            ctx.tally("histories." + sh)
+        if sc.samples != sorted(sc.samples):
+            ctx.tally("histories.sample_names_unsorted")
+        if sc.chroms != sorted(sc.chroms):
+            ctx.tally("histories.chromosome_names_unsorted")
+        if any(st.get("ped") for st in steps):
+            ctx.tally("histories.with_trio_steps")
     P, U, R = build_cases(ctx, results, inputs)
     if inputs:
         ctx.sample({"start_vcf": inputs[0][3].text()[:1200], "steps": inputs[0][4]})
@@ -542,7 +678,7 @@ def quiet_htslib():
 
 def run(ctx):
     quiet_htslib()
-    run_histories(ctx, ctx.n(120, 600))
+    run_histories(ctx, ctx.n(100, 600))
 
 
 def replay(ctx, data):
@@ -551,7 +687,7 @@ def replay(ctx, data):
         return run(ctx)
     wd = util.workdir(ctx)
     sc = synth.Scenario.from_json(data["scenario"])
-    inp = (sc, data["reads"], vcfabs.VcfText.from_json(data["base"]), vcfabs.VcfText.from_json(data["start"]), data["steps"], "replay")
+    inp = (sc, data["reads"], vcfabs.VcfText.from_json(data["base"]), vcfabs.VcfText.from_json(data["start"]), data["steps"], "replay", [])
     results = [run_history(ctx, wd, 0, *inp[:5])]
     P, U, R = build_cases(ctx, results, [inp])
     evaluate(ctx, P[-1:] if data["steps"][-1]["kind"] != "unphase" else [], U[-1:] if data["steps"][-1]["kind"] == "unphase" else [], R[-1:])
